@@ -621,7 +621,11 @@ def chain_conservation(res, facts, trait, rem_m, methods):
                             amounts.append(seen[0] if seen else ("ucall", trait + "::" + rem_m, (args[1],), None))
                         elif isinstance(src, tuple) and src and src[0] in ("call", "ucall") and src[1].rsplit("::", 1)[-1] == "take" and len(src[2]) == 2 \
                                 and (a_f(strip_refs(src[2][0])) or b_f(strip_refs(src[2][0]))):
-                            amounts.append(src[2][1])
+                            # `put(half.take(n))` moves min(n, half.remaining()) bytes: it is n only where n <= half.remaining() is known on the path
+                            half_rem = ("ucall", trait + "::" + rem_m, (src[2][0],), None)
+                            seen = [x for r in rels for side in r[1:3] if isinstance(side, tuple) for x in walk(side)
+                                    if isinstance(x, tuple) and x and x[0] == "ucall" and x[1].rsplit("::", 1)[-1] == rem_m and x[2] and strip_refs(canon(x[2][0])) == strip_refs(canon(src[2][0]))]
+                            amounts.append(("call", "core::cmp::min", (src[2][1], seen[0] if seen else half_rem)))
                         else:
                             return None, "an amount this rule cannot read (%s)" % fmt_expr(args[1])[:60]
                     elif (a_f(recv) or b_f(recv)) and nm not in (rem_m, "has_remaining", "has_remaining_mut", "chunk", "chunk_mut", "chunks_vectored", "remaining", "remaining_mut",
@@ -1238,7 +1242,28 @@ def check_rw_extra(res, facts):
             continue
         for it in im[0]["items"]:
             b = facts.by_did.get(it.get("did"))
-            if b is None or it["name"] in known or "usize" not in b.locals[0]["ty"]:
+            if b is None or it["name"] in known:
+                continue
+            # "never fail": an extra method may answer Err only where the inner buffer is known to hold less than was asked for
+            # (`read_exact` on a short buffer) - `remaining() < dst.len()` dominates the construction of the error
+            from .logic import Ctx
+            rem_m_ = "remaining" if tr.endswith("Read") else "remaining_mut"
+            for bi_, blk_ in enumerate(b.blocks):
+                if blk_["cleanup"]:
+                    continue
+                if any(s_["k"] == "assign" and s_["rv"]["k"] == "agg" and str(s_["rv"].get("adt", "")).endswith("Result") and s_["rv"].get("variant") == "Err" for s_ in blk_["stmts"]):
+                    ctx_ = Ctx(b, bi_, facts)
+                    short = False
+                    for r_ in ctx_.rels:
+                        if r_ and r_[0] == "lt" and len(r_) > 2 and isinstance(r_[1], tuple) and isinstance(r_[2], tuple) \
+                                and ucall_on(rem_m_, "buf")(strip_refs(canon(r_[1]))) and any(x == ("param", 2) for x in walk(canon(r_[2]))):
+                            short = True
+                    kerr = "%s::%s|Err only when short" % (head.rsplit("::", 1)[-1], it["name"])
+                    if short:
+                        res.ok(kerr, b.loc(bi_), "the error is built under %s() < requested" % rem_m_, nontrivial=True)
+                    else:
+                        res.bad(kerr, b.loc(bi_), "an Err is built where `%s() < requested` is not known: the adapter fails although the inner buffer can satisfy the request" % rem_m_)
+            if "usize" not in b.locals[0]["ty"]:
                 continue
             key = "%s::%s|count reported = bytes transferred" % (head.rsplit("::", 1)[-1], it["name"])
             ms = rw_measure(facts, b)
